@@ -14,6 +14,7 @@
 //	ft <d> <step>...         fresh account.AccountDB, token name bound (AddERC20Binding) to a contract with d
 //	                         decimals; steps s<int>=SetFT a<int>=AddFT u<int>=SubFT g=GetFT (accountdb_tuntun.go)
 //
+//	xfer <int> <hex-string>  service.ChangeAssets(src, {dst: {Balance: s}}) with src holding <int> (game.go transfers)
 //	stake <u64>              utility.Float64ToBigInt(float64(n))  (MinerManager.AddStake / AddMiner)
 //	f64 <bits>               utility.Float64ToBigInt(math.Float64frombits(bits))
 //	u64 <u64>                utility.Uint64ToBigInt(n)
@@ -42,6 +43,8 @@ import (
 	"com.tuntun.rangers/node/src/eth_tx"
 	"com.tuntun.rangers/node/src/executor"
 	"com.tuntun.rangers/node/src/middleware/db"
+	"com.tuntun.rangers/node/src/middleware/types"
+	"com.tuntun.rangers/node/src/service"
 	"com.tuntun.rangers/node/src/storage/account"
 	"com.tuntun.rangers/node/src/utility"
 	"com.tuntun.rangers/node/src/storage/rlp"
@@ -110,6 +113,28 @@ func evmValue(v *big.Int) string {
 
 const hugeExp = 150000
 const sizeLimit = 40000000
+
+// xferRun: service.ChangeAssets (game.go: transferBalance -> StrToBigInt, AddBalance, SubBalance,
+// response BigIntToStr) on a fresh AccountDB whose source account holds srcBal.
+func xferRun(srcBal *big.Int, amount string) string {
+	mem, err := db.NewMemDatabase()
+	if err != nil {
+		return "memdb-error"
+	}
+	adb, err := account.NewAccountDB(common.Hash{}, account.NewDatabase(mem))
+	if err != nil {
+		return "accountdb-error"
+	}
+	src := common.HexToAddress("0x5555555555555555555555555555555555555555")
+	dst := common.HexToAddress("0x6666666666666666666666666666666666666666")
+	adb.SetBalance(src, srcBal)
+	res, ok := service.ChangeAssets(src.String(), map[string]types.TransferData{dst.String(): {Balance: amount}}, adb)
+	flag := "fail"
+	if ok {
+		flag = "ok"
+	}
+	return "xfer " + flag + " " + adb.GetBalance(src).String() + " " + adb.GetBalance(dst).String() + " " + strings.ReplaceAll(res, " ", "_")
+}
 
 // ftRun executes the steps of an `ft` op on a fresh AccountDB.
 func ftRun(d uint64, steps []string) string {
@@ -251,6 +276,16 @@ func exec(op string) string {
 			return "bad-op"
 		}
 		return ftRun(d, w[2:])
+	case w[0] == "xfer" && len(w) == 3:
+		n, ok := parseBig(w[1])
+		b, err := hx.UnHex(w[2])
+		if !ok || err != nil {
+			return "bad-op"
+		}
+		if f, _, e := big.ParseFloat(string(b), 10, 512, big.AwayFromZero); e == nil && !f.IsInf() && f.Sign() != 0 && f.MantExp(nil) > hugeExp {
+			return "skipped-huge"
+		}
+		return xferRun(n, string(b))
 	case w[0] == "stake" && len(w) == 2:
 		n, err := strconv.ParseUint(w[1], 10, 64)
 		if err != nil {
@@ -675,8 +710,26 @@ func genSizeStr(r *hx.Rng, dist map[string]int) string {
 
 // genOp produces one op line.
 func genOp(r *hx.Rng, dist map[string]int) string {
-	c := r.Intn(124)
+	c := r.Intn(128)
 	switch {
+	case c >= 124:
+		bal := genNat(r, dist)
+		var amt string
+		switch r.Intn(6) {
+		case 0:
+			amt = genMalformed(r, dist)
+		case 1:
+			amt = genExp(r, dist)
+		case 2: // exactly the balance / one unit more
+			v := new(big.Int).Set(bal)
+			if r.Bool() {
+				v.Add(v, big.NewInt(1))
+			}
+			amt = utility.BigIntToStr(v)
+		default:
+			amt = genPlain(r, dist)
+		}
+		return "xfer " + bal.String() + " " + hx.Hex([]byte(amt))
 	case c >= 120:
 		return "size " + hx.Hex([]byte(genSizeStr(r, dist))) + " " + strconv.FormatInt(int64(r.Pick(18, 18, 0, 6)), 10)
 	case c >= 117:
@@ -780,7 +833,33 @@ func search(r *hx.Rng, n int, dist map[string]int) (evals int, distinct int, vs 
 	inDomain := func(v *big.Int) bool { return new(big.Int).Abs(v).Cmp(lim) < 0 }
 	for i := 0; i < n; i++ {
 		evals++
-		switch r.Intn(7) {
+		switch r.Intn(8) {
+		case 7: // a game transfer of an in-domain decimal amount moves exactly that amount (game.go)
+			bal := genNat(r, dist)
+			if !inDomain(bal) {
+				continue
+			}
+			str := strings.TrimLeft(genPlain(r, dist), "+-")
+			amt, ok := exactPlain(str)
+			if !ok || amt.BitLen() > 256 {
+				continue
+			}
+			op := "xfer " + bal.String() + " " + hx.Hex([]byte(str))
+			seen[op] = true
+			got := hx.Guard(func() string { return exec(op) })
+			var want string
+			if amt.Cmp(bal) <= 0 {
+				left := new(big.Int).Sub(bal, amt)
+				want = "xfer ok " + left.String() + " " + amt.String() + " {\"balance\":\"" + utility.BigIntToStr(left) + "\"}"
+				if back, err := utility.StrToBigInt(utility.BigIntToStr(left)); err != nil || back.Cmp(left) != 0 {
+					add("game-transfer", op, "response balance does not read back: "+utility.BigIntToStr(left))
+				}
+			} else {
+				want = "xfer fail " + bal.String() + " 0 Transfer_Balance_Failed"
+			}
+			if got != want {
+				add("game-transfer", op, "ChangeAssets = "+got+" want "+want)
+			}
 		case 6: // a balance written to an 18-decimal bound token and read back / moved is unchanged
 			v := genNat(r, dist)
 			if !inDomain(v) {
@@ -963,8 +1042,7 @@ func corpusOps() []string {
 
 func main() {
 	a := hx.Args()
-	hxnode.BootLight("dev")
-	executor.InitExecutors()
+	hxnode.BootServices("dev") // config, loggers, middleware, service (package loggers), vm, executors
 	r := hx.NewRng(hx.SeedFromEnv())
 	dist := map[string]int{}
 	mode := a["mode"]
